@@ -26,6 +26,7 @@ def run(prog: Program, rep: Report, tier: str) -> None:
     rep.rule("R17.2", "stop releases every registered endpoint: for each configured port it looks the transport up and closes it unless missing/closing; stop cannot raise (safe before start and when repeated)", 3)
     rep.rule("R17.3", "flag discipline: _is_running is stored only in __init__ (False), start (True, after the whole port loop, never on a raising exit) and stop (False, after the closing loop); is_running returns it", 5)
     rep.rule("R17.4", "acquire/rollback pairing: when binding a later port raises, every transport acquired earlier in this start() is closed (or stop() runs) before the exception leaves, and the flag does not end up True", 1)
+    rep.rule("R17.6", "exclusive bind: no endpoint is created with reuse_port / reuse_address (or an already bound socket), so binding a port that is in use - including by this very bridge on a repeated start - fails instead of orphaning the registered transport", 1)
     rep.rule("R17.5", "context manager pairs: __aenter__ awaits start and returns self; __aexit__ awaits stop unconditionally and returns a falsy value", 2)
     rep.explanation = (
         "Decides structural necessary conditions on every path of start/stop/__aenter__/__aexit__ (port loop unrolled 0,1,2 times with symbolic ports): registration of each endpoint, "
@@ -63,6 +64,17 @@ def run(prog: Program, rep: Report, tier: str) -> None:
             if not ce.awaited:
                 bad1 = f"iteration {i}: create_datagram_endpoint is not awaited"
     rep.check(bad1 is None and len(rets) >= 3, "R17.1", "start registers every endpoint", where, bad1 or f"only {len(rets)} returning paths explored", key="R17.1|start")
+    bad6 = None
+    n6 = 0
+    for o in outs:
+        for ce in B.ev_calls(o, ".create_datagram_endpoint"):
+            n6 += 1
+            kw = dict(ce.kwargs)
+            for opt in ("reuse_port", "reuse_address", "sock"):
+                if opt in kw and not (T.is_c(kw[opt]) and not kw[opt][1]):
+                    bad6 = (f"create_datagram_endpoint is called with {opt}={T.show(kw[opt])}: binding a port that is already in use no longer fails, so a second start() (or another process) "
+                            f"silently shares the port, the earlier transport registered for it is overwritten and never closed by stop()")
+    rep.check(bad6 is None and n6 > 0, "R17.6", "exclusive bind", where, bad6 or "no endpoint creation explored", key="R17.6|start|reuse")
     # protocol per port with the same user callback (shared with C07/R7.4)
     bad_p = None
     for o in rets:
